@@ -127,6 +127,13 @@ class X:
             return S.SDatetime(us, off, aligned) if S.is_z3(us) or S.is_z3(off) else S.mkdt(us, off)
         return S.mkdt(us, off)
 
+    def dt_parts(self, sec, micro, off=0):
+        """datetime with concrete epoch second, symbolic microsecond, concrete offset (minutes):
+        its isoformat() is rendered character by character"""
+        if self.sym and S.is_z3(micro):
+            return S.SDatetime(sec * 1000000 + micro, off, False, (sec, micro))
+        return S.mkdt(sec * 1000000 + micro, off)
+
     def td_us(self, us, aligned=False):
         if self.sym and S.is_z3(us):
             return S.STimedelta(us, aligned)
@@ -146,6 +153,9 @@ def model_values(model, names):
     for name, kind in names:
         if kind == "bool":
             out[name] = bool(z3.is_true(model.eval(z3.Bool(name), model_completion=True)))
+        elif kind == "real":
+            v = model.eval(z3.Real(name), model_completion=True)
+            out[name] = [v.numerator_as_long(), v.denominator_as_long()]
         else:
             out[name] = model.eval(z3.Int(name), model_completion=True).as_long()
     return out
@@ -581,7 +591,7 @@ def run_check(mod, tier, seed, args):
             continue
         scale = args.budget_scale if args is not None else 1.0
         chk.run(h, budget_s=budget * scale)
-    if hasattr(mod, "post"):
+    if hasattr(mod, "post") and not (args is not None and args.only):
         mod.post(chk, tier)
     return chk.finish()
 
